@@ -4,6 +4,8 @@ Oracle: every receive_data call either returns a list or raises
 h2.exceptions.ProtocolError (or a subclass).  Anything else is a violation
 whose mechanism key is (exception type, innermost h2/hpack/hyperframe function).
 """
+import sys
+
 import h2.exceptions
 
 from .. import core, gen, wire
@@ -12,19 +14,185 @@ LEVEL = 'exploration'
 RULE = ('each case = one endpoint (role x header_encoding x inbound validate/normalise x initiated or not) fed a '
         'generated peer byte stream (structural frames with hostile fields / arbitrary HPACK blocks / CONTINUATION '
         'chains, optionally byte-mutated) in random chunks, feeding continues after errors; non-trivial = at least '
-        'one receive_data call returned events or raised; distinct = hash of (config, input bytes)')
-MINIMA = {'receive_calls': 1000, 'raised_protocol_error': 50, 'returned_events': 200}
+        'one receive_data call returned events or raised; distinct = hash of (config, input bytes); plus a coverage-guided '
+        'layer (sys.monitoring LINE events over h2 / hpack / hyperframe): per case a corpus of plausible streams is evolved by byte '
+        'mutation, frame insertion and splicing, inputs that reach new library lines are kept')
+MINIMA = {'receive_calls': 1000, 'raised_protocol_error': 50, 'returned_events': 200, 'greybox_executions': 10000,
+          'greybox_inputs_kept_for_new_coverage': 500}
 ASSUMPTIONS = ['inputs are those reachable by the structural generator plus byte mutation; not all byte strings']
 
 
-def n_cases(tier):
+def n_random(tier):
     return 150000 if tier == "quick" else 6000000
+
+
+def n_greybox(tier):
+    return 48 if tier == "quick" else 960
+
+
+def n_cases(tier):
+    return n_random(tier) + n_greybox(tier)
 
 
 ENCODINGS = [None, None, 'utf-8', 'ascii']
 
+# ---------------------------------------------------------------------------------------------- coverage-guided layer
+# sys.monitoring LINE events with DISABLE: a location reports once and then costs nothing, so "did this input reach a line of
+# h2 / hpack / hyperframe that no earlier input of this case reached" is almost free.  restart_events() at the start of a case
+# re-arms every location, which makes a case's feedback (and therefore its replay) independent of what the worker ran before.
+_MON = {'on': False, 'seen': set(), 'new': 0}
+_TOOL = 4
+
+
+def _line_cb(code, line):
+    fn = code.co_filename
+    if '/h2/' in fn or '/hpack/' in fn or '/hyperframe/' in fn:
+        key = (fn, line)
+        if key not in _MON['seen']:
+            _MON['seen'].add(key)
+            _MON['new'] += 1
+    return sys.monitoring.DISABLE
+
+
+def _coverage_start():
+    mon = getattr(sys, 'monitoring', None)
+    if mon is None:
+        return False
+    if not _MON['on']:
+        try:
+            mon.use_tool_id(_TOOL, 'h2mon-c17')
+            mon.register_callback(_TOOL, mon.events.LINE, _line_cb)
+            mon.set_events(_TOOL, mon.events.LINE)
+        except Exception:       # noqa
+            return False
+        _MON['on'] = True
+    mon.restart_events()
+    _MON['seen'] = set()
+    _MON['new'] = 0
+    return True
+
+
+def _execute(rep, client, cfg, data, chunk_rng, inputs_out):
+    """One execution of the greybox layer: a fresh endpoint with three requests open (clients) fed `data` in chunks."""
+    t = core.Tap(core.make_conn(client, **cfg), keep_log=False)
+    t.call('initiate_connection')
+    if client:
+        for sid in (1, 3, 5):
+            t.call('send_headers', sid, gen.REQ_BASE, end_stream=(sid != 5))
+    errors = 0
+    for ch in gen.chunkings(chunk_rng, data, k=chunk_rng.choice([1, 1, 2, 3, 6])):
+        inputs_out.append(ch)
+        rep.count('receive_calls')
+        rep.count('greybox_receive_calls')
+        res = t.call('receive_data', ch)
+        if res.exc is None:
+            if res.value:
+                rep.count('returned_events')
+        elif isinstance(res.exc, h2.exceptions.ProtocolError):
+            rep.count('raised_protocol_error')
+            errors += 1
+            if errors > 2:
+                break
+        else:
+            rep.count('raised_other')
+            rep.violation('C17:' + core.exc_key(res.exc), 'receive_data raised %s: %s' % (type(res.exc).__name__, str(res.exc)[:200]),
+                          witness(client, cfg, True, inputs_out))
+            break
+
+
+def _random_frame(rng):
+    sid = rng.choice([0, 1, 2, 3, 5, 7, 2 ** 31 - 1])
+    k = rng.randrange(10)
+    blk = gen.hpack_block(rng, gen.hostile_headers(rng, rng.choice(['request', 'response', 'trailers'])) if rng.random() < 0.5
+                          else gen.valid_headers(rng, rng.choice(['request', 'response', 'informational', 'trailers'])), hostile=0.2)
+    if k == 0:
+        return wire.build_data(sid, bytes(rng.randrange(256) for _ in range(rng.randrange(0, 40))), end_stream=rng.random() < 0.3,
+                               pad=rng.choice([None, 0, 3, 255]))
+    if k == 1:
+        return wire.build_headers(sid, blk, end_stream=rng.random() < 0.4, end_headers=rng.random() < 0.8,
+                                  pad=rng.choice([None, None, 0, 9]), priority=rng.choice([None, None, (rng.choice([0, sid, 3]), True, 7)]))
+    if k == 2:
+        return wire.build_continuation(sid, blk[:rng.randrange(0, len(blk) + 1)], end_headers=rng.random() < 0.6)
+    if k == 3:
+        return wire.build_settings([(rng.choice([1, 2, 3, 4, 5, 6, 8, 9, 0xffff]), rng.choice([0, 1, 100, 16384, 2 ** 24, 2 ** 31 - 1, 2 ** 32 - 1]))
+                                    for _ in range(rng.randrange(0, 4))], ack=rng.random() < 0.2)
+    if k == 4:
+        return wire.build_push_promise(sid, rng.choice([2, 4, 6, 1, 0]), blk, end_headers=rng.random() < 0.8)
+    if k == 5:
+        return wire.build_window_update(sid, rng.choice([0, 1, 1000, 2 ** 31 - 1]))
+    if k == 6:
+        return wire.build_rst(sid, rng.randrange(0, 16))
+    if k == 7:
+        return wire.build_goaway(rng.choice([0, 1, 7]), rng.randrange(0, 14), rng.choice([b'', b'dbg']))
+    if k == 8:
+        return wire.build_altsvc(sid, rng.choice([b'', b'o.example']), b'h2=":1"')
+    return wire.raw_frame(rng.randrange(0, 256), rng.randrange(256), sid, bytes(rng.randrange(256) for _ in range(rng.randrange(0, 20))),
+                          length=rng.choice([None, None, 0, 5, 2 ** 24 - 1]))
+
+
+def run_greybox(idx, rng, tier, rep):
+    if not _coverage_start():
+        rep.count('greybox_unavailable')
+        return
+    client = rng.random() < 0.5
+    cfg = dict(header_encoding=rng.choice(ENCODINGS), validate_inbound_headers=rng.random() < 0.75,
+               normalize_inbound_headers=rng.random() < 0.75)
+    # seed corpus: a few streams of plausible traffic for this role
+    corpus = []
+    for _ in range(4):
+        pg = gen.PeerGen(rng, client, hostile=rng.choice([0.0, 0.1]), hdr_hostile=0.0)
+        if client:
+            for sid in (1, 3, 5):
+                pg.note_e_stream(sid)
+        data = bytearray(pg.preface())
+        for _ in range(rng.choice([3, 8, 15])):
+            data += pg.step()
+        corpus.append(bytes(data))
+    execs = 300 if tier == 'quick' else 2500
+    added = 0
+    for i in range(execs):
+        base = rng.choice(corpus)
+        r = rng.random()
+        if i < len(corpus):
+            data = corpus[i]
+        elif r < 0.45:
+            data = gen.mutate_bytes(rng, base)
+        elif r < 0.7:
+            # insert a freshly built (possibly odd) frame at a frame boundary of the base stream
+            frames, used = wire.parse_frames(base[24:] if not client else base)
+            off = (24 if not client else 0) + (rng.choice(frames).end if frames else 0)
+            data = base[:off] + _random_frame(rng) + base[off:]
+        elif r < 0.85:
+            other = rng.choice(corpus)
+            cut = rng.randrange(0, len(base) + 1)
+            data = base[:cut] + other[rng.randrange(0, len(other) + 1):]
+        else:
+            data = base + b''.join(_random_frame(rng) for _ in range(rng.randrange(1, 4)))
+        _MON['new'] = 0
+        inputs = []
+        _execute(rep, client, cfg, data, rng, inputs)
+        rep.count('greybox_executions')
+        if _MON['new'] and i >= len(corpus) and len(data) < 70000:
+            corpus.append(data)
+            added += 1
+            rep.count('greybox_inputs_kept_for_new_coverage')
+    rep.count('greybox_cases')
+    rep.observe('greybox_lines_reached_per_case_hundreds', str(len(_MON['seen']) // 100))
+    rep.nontrivial(('greybox', idx, client, sorted(cfg.items(), key=str), added, len(_MON['seen'])))
+    if idx % 16 == 0:
+        rep.sample({'layer': 'coverage-guided', 'role': 'client' if client else 'server', 'cfg': cfg, 'executions': execs,
+                    'inputs_kept_for_new_coverage': added, 'distinct_library_lines_reached': len(_MON['seen'])})
+
+
+def is_greybox(idx, tier):
+    # spread the (long) coverage-guided cases evenly over the index range, so that every shard gets its share
+    period = n_cases(tier) // n_greybox(tier)
+    return idx % period == 0 and idx // period < n_greybox(tier)
+
 
 def run_case(idx, rng, tier, rep):
+    if is_greybox(idx, tier):
+        return run_greybox(idx, rng, tier, rep)
     client = rng.random() < 0.5
     cfg = dict(header_encoding=rng.choice(ENCODINGS),
                validate_inbound_headers=rng.random() < 0.75,
